@@ -129,6 +129,19 @@ def run(chk):
             lambda x=x, ref=ref: bool(ds.isdist1(x, set(ref), ds.hamming_neighbors)), bool, "isdist")
         add({"op": "isdist1", "x": x, "ref": ref, "A": AA, "ham": False},
             lambda x=x, ref=ref: bool(ds.isdist1(x, set(ref))), bool, "isdist")
+    # every reference further than 3 mismatches away (or none of equal length): the answer is maxdist itself
+    for _ in range(10 if not thorough else 60):
+        Lx = rng.randint(4, 6)
+        x = "".join(rng.choice("ACD") for _ in range(Lx))
+        far = ["".join(rng.choice([c for c in "ACDE" if c != ch]) for ch in x) for _ in range(rng.randint(0, 3))]
+        if far and rng.random() < 0.5:
+            k = rng.randrange(Lx)
+            far.append(far[0][:k] + x[k] + far[0][k + 1:])      # exactly Lx - 1 mismatches
+        if rng.random() < 0.3:
+            far.append(x + "A")
+        for md in (1, 3, 4):
+            add({"op": "nndist_hamming", "x": x, "ref": far, "A": AA, "maxdist": md},
+                lambda x=x, ref=far, md=md: int(ds.nndist_hamming(x, set(ref), maxdist=md)), int, "nndist")
     ops.append({"op": "nndist_hamming", "x": "AC", "ref": ["AC"], "A": AA, "maxdist": 5})
     reals.append(core.call_real(lambda: ds.nndist_hamming("AC", {"AC"}, maxdist=5)))
     meta.append((ops[-1], lambda v: v, "nndist"))
